@@ -179,6 +179,8 @@ func (db *TempPool) SetProposal(pr base.ProposalSignFact) (bool, error) {
 		return false, nil
 	}
 
+	verifPoolGate("setproposal:checked", key)
+
 	batch := pst.NewBatch()
 	defer batch.Reset()
 
@@ -796,6 +798,8 @@ func (db *TempPool) SetBallot(bl base.Ballot) (bool, error) {
 
 		blb = b
 	}
+
+	verifPoolGate("setballot:checked", key)
 
 	if err := pst.Put(key, blb, nil); err != nil {
 		return false, e.Wrap(err)
